@@ -134,7 +134,12 @@ func (c *Ctx) Case(entry int, args [][]byte, f func() Obs) Obs {
 	c.impl.WriteString(o.String())
 	c.impl.WriteByte('\n')
 	c.NCases++
-	c.Dist[entryNames[entry]+"/"+o.Status]++
+	st := o.Status
+	if st == "ok" && len(o.Outs) == 1 && len(o.Outs[0]) == 1 && o.Outs[0][0] <= 1 {
+		// boolean-valued entries: the split between accepted and refused is part of the distribution
+		st = []string{"ok:false", "ok:true"}[o.Outs[0][0]]
+	}
+	c.Dist[entryNames[entry]+"/"+st]++
 	if !c.seen[line] {
 		c.seen[line] = true
 		c.Distinct++
